@@ -30,7 +30,7 @@ example : ∃ ind', readQString 7 (34 :: (encode [97, 34, 98, 92, 99, 9, 10, 0xc
     .ok ([97, 34, 98, 92, 99, 9, 10, 0xc3, 0xa9, 32], ind', [59]) :=
   yang_encode_roundtrip _ _ _ 0 (by decide) (by decide) (by decide)
 
-/-- The hypothesis "no CR" cannot be dropped (F50): CR is a legal YANG character, `ypr_encode` copies it, and the
+/-- The hypothesis "no CR" cannot be dropped (F82): CR is a legal YANG character, `ypr_encode` copies it, and the
     lexer rejects a CR that is not followed by LF — and after CR LF the encoded string reads back differently. -/
 theorem yang_encode_roundtrip_fails_cr :
     ¬ ∀ (s rest : Bytes) (col : Nat), isYangText s = true → RestOk rest →
@@ -47,8 +47,8 @@ theorem yang_encode_roundtrip_fails_cr :
 def quoteFlag (flags : Nat) : Nat := if flagSingleQuoted flags then LYS_SINGLEQUOTED else LYS_DOUBLEQUOTED
 
 /-- The texts `ypr_text` prints faithfully under `flags`:
-    * single-quoted: no newline (the printer indents continuation lines *inside* the quotes, F51);
-    * double-quoted: no CR (F50), no blank immediately before a newline (F5) and, in a single-line statement, no blank
+    * single-quoted: no newline (the printer indents continuation lines *inside* the quotes, F83);
+    * double-quoted: no CR (F82), no blank immediately before a newline (F5) and, in a single-line statement, no blank
       immediately after a newline (F35). -/
 def TextOk (flags : Nat) (s : Bytes) : Prop :=
   if flagSingleQuoted flags then 10 ∉ s
@@ -127,7 +127,7 @@ theorem yang_text_roundtrip_fails_F35 :
   rw [this] at e
   simp at e
 
-/-- F50: a CR in a double-quoted text (no blanks around newlines at all): the lexer rejects its own printer's output. -/
+/-- F82: a CR in a double-quoted text (no blanks around newlines at all): the lexer rejects its own printer's output. -/
 theorem yang_text_roundtrip_fails_F50 :
     ¬ ∀ (fmt : Bool) (level flags ind : Nat) (s rest : Bytes), isYangText s = true → ¬ [32, 10] <:+: s → ¬ [10, 32] <:+: s →
       flagSingleQuoted flags = false → (indentOf fmt level).length ≤ ind → RestOk rest →
@@ -139,7 +139,7 @@ theorem yang_text_roundtrip_fails_F50 :
   rw [this] at e
   simp at e
 
-/-- F51: a single-quoted text with a newline (`pattern 'a<LF>b'`): the continuation indentation is printed inside
+/-- F83: a single-quoted text with a newline (`pattern 'a<LF>b'`): the continuation indentation is printed inside
     the quotes and becomes part of the string. -/
 theorem yang_text_roundtrip_fails_F51 :
     ¬ ∀ (fmt : Bool) (level flags ind : Nat) (s rest : Bytes), isYangText s = true → 13 ∉ s → ¬ [32, 10] <:+: s → ¬ [10, 32] <:+: s →
@@ -158,7 +158,7 @@ theorem yang_text_roundtrip_fails_F51 :
 `WfStmts ss` (LemmasTree): every keyword lexes as itself (`KwOk`, and `KwBareOk` where `;` follows it directly: a
 YANG keyword without argument must be `input`/`output`, the printer writes `leaf;` and `get_keyword` wants a separator
 after `leaf`); every argument is absent, or unquoted and able to stand without quotes (`UnquotedOk`), or double-quoted
-without CR and without a blank before a newline (F50, F5), or single-quoted without a newline (F51).  Extension-instance
+without CR and without a blank before a newline (F82, F5), or single-quoted without a newline (F83).  Extension-instance
 substatements are always printed in block style, so F35 does not occur here. -/
 
 /-- The statements `ss` (with all their substatements) printed by `yprp_stmt` at any level inside a block, read by the
